@@ -104,6 +104,7 @@ func (ti *typeInfo) field(param string) (*fieldInfo, error) {
 func (ti *typeInfo) normalize() error {
 	var fields []*fieldInfo
 	params := map[string]bool{}
+	groupCounted := false
 	for _, f := range ti.Fields {
 		isValid := true
 		if f.Opts.OmitEmpty {
@@ -127,6 +128,13 @@ func (ti *typeInfo) normalize() error {
 		}
 		if !f.Opts.Group && !f.Opts.OmitEmpty && !f.Opts.Inline {
 			ti.NumReqValues++
+		}
+		if !f.Opts.Group {
+			groupCounted = false
+		} else if !f.Opts.OmitEmpty && !groupCounted {
+			// A group with a required member takes exactly one fragment
+			ti.NumReqValues++
+			groupCounted = true
 		}
 		if f.Opts.Param == "" {
 			fields = append(fields, f)
